@@ -21,11 +21,18 @@ func (fr *Frame) execCall(v ssa.Value, c *ssa.CallCommon, st *State, alive *Term
 	var args []*Term
 	var argTypes []types.Type
 	if c.IsInvoke() {
-		args = append(args, fr.val(c.Value))
+		recv := fr.val(c.Value)
+		args = append(args, recv)
 		argTypes = append(argTypes, c.Value.Type())
-	}
-	if mc, ok := c.Value.(*ssa.MakeClosure); ok {
-		_ = mc
+		// a method call through a nil interface value panics
+		if recv.Sort == SInt {
+			nn := Not(Eq(recv, IntLit(0)))
+			if vc.ct.MayPanic {
+				vc.assume(Implies(alive, nn))
+			} else {
+				fr.safety(in, "nil-invoke", fr.ordOr(in, name), alive, nn)
+			}
+		}
 	}
 	for _, a := range c.Args {
 		if g.sortOf(a.Type()) == SNone {
@@ -238,7 +245,7 @@ func (fr *Frame) applyContract(v ssa.Value, ct *Contract, name string, c *ssa.Ca
 				if label == "" {
 					label = fmt.Sprintf("%d", i+1)
 				}
-				vc.oblige(fmt.Sprintf("exit:%s@%s", label, ord), "exit", er.Props, vc.pos(in.Pos()), alive, t, er.Expr)
+				vc.obligeNoAssume(fmt.Sprintf("exit:%s@%s", label, ord), "exit", er.Props, vc.pos(in.Pos()), alive, t, er.Expr)
 			}
 		} else {
 			unsupported("terminal call %s inside inlined function", name)
